@@ -41,6 +41,9 @@ type c10Scenario struct {
 	// InFlightHB: heartbeat timers are on and a Heartbeat Request from peer 0 travels together with the triggers (for a
 	// heartbeat failure: at the moment the agent gives up), so that it is handled while the association is being torn down
 	InFlightHB bool `json:"inflighthb,omitempty"`
+	// Reverse: canonical order with the most recently created thread first, so that the node's own loop runs last and
+	// the connections' exit reports pile up in the completion channel
+	Reverse bool `json:"reverse,omitempty"`
 }
 
 const c10N4 = "10.0.0.1"
@@ -105,6 +108,7 @@ func c10Run(sc c10Scenario, prefix []int, sigs []string) (*vsched.Sched, schedVe
 	s.PrefixSigs = sigs
 	s.ChargeFreeSwitch = true
 	s.MaxSlack = 20 * time.Second
+	s.ReverseOrder = sc.Reverse
 	w := &c10World{}
 	hb := false
 	rt := 1000 * time.Second
@@ -495,6 +499,11 @@ func c10Scenarios() []c10Scenario {
 	}
 	add(101, 0, false, false, "release@0", "stop")
 	out[len(out)-1].Canon = true
+	for _, n := range []int{101, 130} {
+		add(n, 0, false, false, "stop")
+		out[len(out)-1].Canon, out[len(out)-1].Reverse = true, true
+		out[len(out)-1].Name += "+reverse-order"
+	}
 	return out
 }
 
